@@ -169,7 +169,7 @@ impl Check for C19 {
             .into()
     }
     fn budget(t: Tier) -> usize {
-        t.pick(20_000, 400_000)
+        t.pick(20_000, 2_000_000)
     }
     fn fixed(_t: Tier) -> Vec<Case> {
         let mut names: Vec<String> = std::fs::read_dir(crate::kit::repo_root().join("testdata"))
